@@ -736,3 +736,104 @@ func (g *Gen) originOtherAssetProgram(single bool) *GProgram {
 	}
 	return g.prog
 }
+
+// nestedKept: an ordered destination ending in `remaining kept` (or keeping a capped amount) NESTED
+// inside a clause of an outer ordered destination or inside a share of an allotment, with other
+// destinations after it: what the inner block keeps is withheld from the sources next in line at
+// that point, and the destinations that follow are served by the sources after those.
+func (g *Gen) nestedKeptProgram() *GProgram {
+	asset := "USD"
+	g.asset = asset
+	k := 2 + g.r.Intn(3)
+	names := []string{"a", "b", "c", "d"}[:k]
+	sum := g.smallBalances(names, asset, 10)
+	src := &GSource{Kind: SrcInorder}
+	for _, a := range names {
+		src.Subs = append(src.Subs, srcAcct(a))
+	}
+	if g.r.Chance(1, 4) {
+		src.Subs = append(src.Subs, srcAcct("world"))
+	}
+	n := new(big.Int).Set(sum)
+	if sum.Sign() > 0 && g.r.Chance(1, 3) {
+		n = g.r.BigBelow(new(big.Int).Add(sum, bi(1)))
+	}
+	small := func() *GExpr { return lit(asset, bi(int64(g.r.Intn(7)))) }
+	inner := &GDest{Kind: DstInorder, Remaining: &GKod{Kept: true}}
+	for i, m := 0, 1+g.r.Intn(2); i < m; i++ {
+		to := &GKod{To: dstAcct([]string{"x", "y"}[g.r.Intn(2)])}
+		if g.r.Chance(1, 4) {
+			to = &GKod{Kept: true}
+		}
+		inner.Clauses = append(inner.Clauses, &GClause{Cap: small(), To: to})
+	}
+	if g.r.Chance(1, 5) {
+		inner.Remaining = &GKod{To: dstAcct("w")}
+	}
+	var dst *GDest
+	if g.r.Chance(2, 3) {
+		dst = &GDest{Kind: DstInorder, Remaining: &GKod{To: dstAcct("z")}}
+		if g.r.Chance(1, 3) {
+			dst.Clauses = append(dst.Clauses, &GClause{Cap: small(), To: &GKod{To: dstAcct("v")}})
+		}
+		dst.Clauses = append(dst.Clauses, &GClause{Cap: lit(asset, bi(int64(1+g.r.Intn(9)))), To: &GKod{To: inner}})
+		if g.r.Chance(1, 2) {
+			dst.Clauses = append(dst.Clauses, &GClause{Cap: small(), To: &GKod{To: dstAcct("y")}})
+		}
+	} else {
+		saved := g.cfg.BadAllot
+		g.cfg.BadAllot = 0
+		als := g.allots(2 + g.r.Intn(2))
+		g.cfg.BadAllot = saved
+		dst = &GDest{Kind: DstAllot}
+		at := g.r.Intn(len(als) - 1) // never the last share: something must follow the inner block
+		for i, al := range als {
+			to := &GKod{To: dstAcct([]string{"z", "y", "v"}[i%3])}
+			if i == at {
+				to = &GKod{To: inner}
+			}
+			dst.Items = append(dst.Items, &GDestItem{Allot: al, To: to})
+		}
+	}
+	g.prog.Stmts = append(g.prog.Stmts, &GStmt{Kind: StSend, Sent: &GSent{E: lit(asset, n)}, Src: src, Dst: dst})
+	return g.prog
+}
+
+// metaReadThenWrite: a key of an account is READ through a meta() origin, then written twice - a new
+// value, then the value it had in the store again (as a literal, or through the variable that read
+// it): the last write wins, whatever was read before.
+func (g *Gen) metaReadThenWriteProgram() *GProgram {
+	g.asset = "USD"
+	acc := g.r.Pick([]string{"a", "b"})
+	key := g.r.Pick([]string{"k", "key"})
+	typ, initial, other := "string", "first", "second"
+	mk := func(v string) *GExpr { return &GExpr{Kind: XString, S: v} }
+	if g.r.Chance(1, 3) {
+		typ, initial, other = "number", "7", "8"
+		mk = func(v string) *GExpr { n, _ := new(big.Int).SetString(v, 10); return &GExpr{Kind: XNumber, N: n} }
+	}
+	if g.meta[acc] == nil {
+		g.meta[acc] = map[string]string{}
+	}
+	g.meta[acc][key] = initial
+	g.prog.Vars = append(g.prog.Vars, &GVarDecl{Type: typ, Name: "seen", Origin: &GFnCall{Name: "meta", Args: []*GExpr{acct(acc), {Kind: XString, S: key}}}})
+	set := func(v *GExpr) {
+		g.prog.Stmts = append(g.prog.Stmts, &GStmt{Kind: StCall, Call: &GFnCall{Name: "set_account_meta", Args: []*GExpr{acct(acc), {Kind: XString, S: key}, v}}})
+	}
+	if g.r.Chance(1, 4) {
+		set(mk(initial)) // written back unchanged first
+	}
+	set(mk(other))
+	if g.r.Chance(1, 3) {
+		set(&GExpr{Kind: XString, S: "third"})
+	}
+	if g.r.Chance(1, 2) {
+		set(&GExpr{Kind: XVar, S: "seen"})
+	} else {
+		set(mk(initial))
+	}
+	if g.r.Chance(1, 3) {
+		g.prog.Stmts = append(g.prog.Stmts, &GStmt{Kind: StCall, Call: &GFnCall{Name: "set_tx_meta", Args: []*GExpr{{Kind: XString, S: "seen"}, {Kind: XVar, S: "seen"}}}})
+	}
+	return g.prog
+}
